@@ -93,7 +93,8 @@ def run_go_functions(rep, spec, contracts, word=64, natives=(), extra_pkgs=(), v
     out = []
     proved_lemmas = set()
     for c in contracts:
-        v = GoVerifier(dump, spec, word=word)
+        w = int(c.get('word')[0].text) if c.get('word') else word
+        v = GoVerifier(dump, spec, word=w)
         try:
             v.load_axioms()
             fr = v.verify_function(c.key)
